@@ -753,3 +753,23 @@ package gorm
 //@   min-sites 1
 //@   assert dry-run-session: arg1.DryRun && arg1.SkipDefaultTransaction [C19]
 //@   assert continues-the-receivers-chain: arg0 == db && !arg1.NewDB [C19]
+
+//@ # ---------- C15: "no rows" is not "no error" ----------
+//@ # Scan reports the same rows and errors as Find: when the cursor's first Next is false the cursor's error is looked
+//@ # at and recorded (a driver failure while producing the first row ends the iteration just like an empty result).
+//@ ghost cursorEnded cursorErrPending cursorErrTag cursorErrBox
+//@ event call database/sql.(*Rows).Next
+//@   in gorm.(*DB).Scan
+//@   do cursorEnded = ite(result, 0, 1)
+//@   do cursorErrPending = ite(result, cursorErrPending, 1)
+//@ event call database/sql.(*Rows).Err
+//@   in gorm.(*DB).Scan
+//@   do cursorErrTag = tagof(result)
+//@   do cursorErrBox = boxof(result)
+//@   do cursorErrPending = 2
+//@ event call (*DB).AddError
+//@   in gorm.(*DB).Scan
+//@   do cursorErrPending = ite(cursorErrPending == 2 && tagof(arg1) == cursorErrTag && boxof(arg1) == cursorErrBox, 0, cursorErrPending)
+//@ func (*DB).Scan
+//@   tags C15
+//@   ensures cursor-error-recorded-when-no-row: old(cursorErrPending) == 0 ==> cursorErrPending == 0
